@@ -199,7 +199,13 @@ pub fn worker<P: Property>(tier: Tier, seed: u64, start: u64, step: u64, end: u6
         if let Some(v) = v {
             wo.stats.inc("violating_runs");
             if wo.violations.len() < 40 {
-                wo.violations.push(FoundViolation { run: i as i64, class: v.class, detail: v.detail, plan: serde_json::to_value(&plan).unwrap() });
+                let fv = FoundViolation { run: i as i64, class: v.class, detail: v.detail, plan: serde_json::to_value(&plan).unwrap() };
+                // also streamed to the driver at once: a worker that later dies or hangs
+                // must not take its findings with it
+                if let Ok(js) = serde_json::to_string(&fv) {
+                    say(format!("FOUND {js}"));
+                }
+                wo.violations.push(fv);
             }
         }
         wo.runs_done += 1;
@@ -290,6 +296,7 @@ struct Child {
     reader: Option<std::thread::JoinHandle<()>>,
     stderr: Arc<std::sync::Mutex<String>>,
     err_reader: Option<std::thread::JoinHandle<()>>,
+    streamed: Arc<std::sync::Mutex<Vec<FoundViolation>>>,
 }
 
 fn now_ms(t0: Instant) -> u64 {
@@ -323,9 +330,15 @@ fn spawn_worker(prop: &str, tier: Tier, seed: u64, start: u64, step: u64, end: u
     let done = Arc::new(AtomicU64::new(0));
     let so = proc.stdout.take().unwrap();
     let (lb, lt, dn) = (last_begin.clone(), last_time.clone(), done.clone());
+    let streamed = Arc::new(std::sync::Mutex::new(Vec::new()));
+    let st2 = streamed.clone();
     let reader = std::thread::spawn(move || {
         for line in BufReader::new(so).lines().map_while(Result::ok) {
-            if let Some(rest) = line.strip_prefix("BEGIN ") {
+            if let Some(rest) = line.strip_prefix("FOUND ") {
+                if let Ok(fv) = serde_json::from_str::<FoundViolation>(rest) {
+                    st2.lock().unwrap().push(fv);
+                }
+            } else if let Some(rest) = line.strip_prefix("BEGIN ") {
                 if let Ok(i) = rest.trim().parse::<i64>() {
                     lb.store(i, Ordering::SeqCst);
                     lt.store(now_ms(t0), Ordering::SeqCst);
@@ -347,7 +360,7 @@ fn spawn_worker(prop: &str, tier: Tier, seed: u64, start: u64, step: u64, end: u
             }
         }
     });
-    Child { proc, last_begin, last_time, done, out: out.to_path_buf(), start, reader: Some(reader), stderr, err_reader: Some(err_reader) }
+    Child { proc, last_begin, last_time, done, out: out.to_path_buf(), start, reader: Some(reader), stderr, err_reader: Some(err_reader), streamed }
 }
 
 pub struct RunOpts {
@@ -432,7 +445,9 @@ pub fn run_check<P: Property>(o: &RunOpts) -> i32 {
                 continue;
             }
             // The worker died (signal / abort / stack overflow / OOM) or hung:
-            // attribute it to the run it had announced, then carry on after it.
+            // keep what it had already reported, attribute the death to the run it had
+            // announced, then carry on after it.
+            found.extend(c.streamed.lock().unwrap().drain(..));
             let at = c.last_begin.load(Ordering::SeqCst);
             let what = if hung {
                 "hang: no progress within the watchdog limit".to_string()
